@@ -57,6 +57,8 @@ def state_value(vc, i, perm=None):
         return K("s%d" % i, h)
     if vc == "hashclash":
         return HASHCLASH[i] if i < len(HASHCLASH) else i
+    if vc == "longnames":
+        return "the_state_of_the_automaton_numbered_%02d" % i   # long names that differ at their END (merged names pass 64 characters)
     if vc == "varnames":
         return VARNAMES[i] if i < len(VARNAMES) else "V%d" % i
     raise ValueError(vc)
